@@ -153,7 +153,9 @@ def run(ctx: Ctx):
            f"index -> time is not start + i * resolution (monotonicity {m})", key="R17.2|idxToDate|formula")
     asg = [x for x in own_nodes(d2i) if isinstance(x, ast.Assign) and norm(x.targets[0]) == "idx" and "diff / self.resolution" in norm(x.value)]
     # floor, not truncation: an instant before the start must get a negative index (and be rejected / clamped), not slot 0
-    ok = bool(asg) and norm(asg[0].value) in ("math.floor(diff / self.resolution)", "int(math.floor(diff / self.resolution))")
+    asg = asg or [x for x in own_nodes(d2i) if isinstance(x, ast.Assign) and norm(x.targets[0]) == "idx" and "diff // self.resolution" in norm(x.value)]
+    ok = bool(asg) and norm(asg[0].value) in ("math.floor(diff / self.resolution)", "int(math.floor(diff / self.resolution))",
+                                              "int(diff // self.resolution)", "diff // self.resolution")
     dres = local_resolver(d2i.node)
     diff_ok = any(norm(v) in ("diff_result.total_seconds()",) for v in dres(ast.Name(id="diff", ctx=ast.Load()))) and \
         any(norm(v) == "date - self.startDate" for v in dres(ast.Name(id="diff_result", ctx=ast.Load())))
@@ -295,7 +297,7 @@ def run(ctx: Ctx):
                key="R17.5|collectIntervals|non-empty")
     pd2i = repo.func("Project.dateToIdx")
     pasg = [x for x in own_nodes(pd2i) if isinstance(x, (ast.Assign, ast.AnnAssign)) and "scheduleGranularity" in norm(x.value) and "diff_seconds" in norm(x.value)]
-    ok = bool(pasg) and all("math.floor(" in norm(x.value) for x in pasg)
+    ok = bool(pasg) and all("math.floor(" in norm(x.value) or "//" in norm(x.value) for x in pasg)
     ctx.ob("R17.2", f"{pd2i.qual}: {norm(pasg[0].value) if pasg else '-'}", pd2i, ok, "index(t) = floor((t - start) / granularity)" if ok else
            "project time -> index is not a floor: an instant before the project start maps to slot 0",
            key="R17.2|Project.dateToIdx|formula")
